@@ -9,8 +9,11 @@ def register(PROPS, HARNESS_PKGS):
         "proofs": ["BucketProof"],
         "quick": {"gen": [g("{60, 600}", "{1, 3}", allb),
                           # a global limit next to the per-IP one (tighter and looser than it)
-                          g("{60, 600}", "{3}", '{"keepalive1", "twoips", "mixhealth"}', '{"rate"}', "{120}")]},
-        "thorough": {"gen": [g("{60, 120, 600}", "{1, 3, 5}", allb), g("{60, 120, 600}", "{1, 3, 5}", allb, '{"rate"}', "{60, 300}")]},
+                          g("{60, 600}", "{3}", '{"keepalive1", "twoips", "mixhealth"}', '{"rate"}', "{120}"),
+                          # ... and a global limit alone (per-IP limit 0 = disabled)
+                          g("{0}", "{3}", '{"keepalive1", "newconn", "burst"}', '{"rate"}', "{120}")]},
+        "thorough": {"gen": [g("{60, 120, 600}", "{1, 3, 5}", allb), g("{60, 120, 600}", "{1, 3, 5}", allb, '{"rate"}', "{60, 300}"),
+                             g("{0}", "{1, 3}", allb, '{"rate"}', "{60, 300}")]},
         "pkg": "internal/app", "test": "TestVerif_Admission",
         "harness_files": ["stack_test.go", "dispatch_test.go", "admission_test.go"],
         "trace": {"module": "AdmissionTrace", "cfg": "Admission_trace.cfg"},
